@@ -66,7 +66,6 @@ func (c *fakeConn) Write(bufs ...buffer.IoBuffer) error {
 	defer c.mu.Unlock()
 	for _, b := range bufs {
 		c.writes = append(c.writes, append([]byte(nil), b.Bytes()...))
-		b.Drain(b.Len())
 	}
 	return nil
 }
@@ -153,6 +152,11 @@ func (w *xworld) release(rec *xstreamRec) {
 }
 
 var fakeConnID uint64 = 1 << 40
+
+func reflectCSC(cli stream.Client) types.ClientStreamConnection {
+	// exported field of the (unexported) client struct
+	return reflect.ValueOf(cli).Elem().FieldByName("ClientStreamConnection").Interface().(types.ClientStreamConnection)
+}
 
 func newXWorld(gen string, c0 uint64) *xworld {
 	w := &xworld{gen: gen, lastTok: map[uint64]uint32{}, inflight: map[int]bool{}}
@@ -507,7 +511,7 @@ func c02(args []string) int {
 	log.Proxy.SetLogLevel(log.FATAL)
 	registerProtocols()
 	r := run.R
-	run.Sum.Rule = "histories on one real xprotocol client stream connection (stream.NewStreamClient over a recording connection; id generators = the real GenerateRequestID of bolt (uint32), tars (int32, sign-extended), dubbo (uint64), and the real bolt codec end to end): families perm (N<=5 streams, responses in EVERY permutation), dup (every response twice / unknown ids), late (response after stream reset), connreset (connection reset at EVERY position of a base history), wrap (counter preset just below 2^31, 2^32, 2^63, 2^64 so the ids wrap inside the history), random (8-40 ops over {new, one-way, response to any stream's id incl. completed ones, unknown id, stream reset incl. stale and repeated, connection reset}); non-trivial: at least 2 streams and one op other than new/response-in-order; distinct by (generator, initial counter, op sequence). Pooled mode (families pooled-late, pooled-random): 2-3 connections in one history, every request with its own buffer-pool context that is given back to the REAL pool when the request ends, so the pooled xStream struct is reused by later requests on the same or another connection; a reset connection is dead afterwards; late replies for reset requests on the healthy connections. Concurrent allocation: 8-16 goroutines allocate 4-128 ids each (half of the rounds start 1-2g below the wrap point) on one counter preset so that it crosses 2^31 / 2^32 / 2^64 while they run, through the real GenerateRequestID of bolt/tars/dubbo (3 of 4 rounds directly, 1 of 4 through streamConn.NewStream), ids must be pairwise distinct, for ~5 s (quick). Concurrent mode: the same operations from concurrent goroutines, delivery soundness only."
+	run.Sum.Rule = "histories on one real xprotocol client stream connection (stream.NewStreamClient over a recording connection; id generators = the real GenerateRequestID of bolt (uint32), tars (int32, sign-extended), dubbo (uint64), and the real bolt codec end to end): families perm (N<=5 streams, responses in EVERY permutation), dup (every response twice / unknown ids), late (response after stream reset), connreset (connection reset at EVERY position of a base history), wrap (counter preset just below 2^31, 2^32, 2^63, 2^64 so the ids wrap inside the history), random (8-40 ops over {new, one-way, response to any stream's id incl. completed ones, unknown id, stream reset incl. stale and repeated, connection reset}); non-trivial: at least 2 streams and one op other than new/response-in-order; distinct by (generator, initial counter, op sequence). Pooled mode (families pooled-late, pooled-random): 2-3 connections in one history, every request with its own buffer-pool context that is given back to the REAL pool when the request ends, so the pooled xStream struct is reused by later requests on the same or another connection; a reset connection is dead afterwards; late replies for reset requests on the healthy connections. Reply ids: real server stream connection + real client stream connection(s) sharing the request frame object as the proxy does (bolt, boltv2, dubbo codecs and the harness codecs), downstream id != upstream id, reply kinds upstream response / hijack before the forward / after one forward / after a retry / heartbeat ack / one-way; the id written downstream must be the downstream request's. Concurrent allocation: 8-16 goroutines allocate 4-128 ids each (half of the rounds start 1-2g below the wrap point) on one counter preset so that it crosses 2^31 / 2^32 / 2^64 while they run, through the real GenerateRequestID of bolt/tars/dubbo (3 of 4 rounds directly, 1 of 4 through streamConn.NewStream), ids must be pairwise distinct, for ~5 s (quick). Concurrent mode: the same operations from concurrent goroutines, delivery soundness only."
 	gens := []string{"GenU32", "GenS32", "GenU64", "bolt"}
 	wraps := map[string][]uint64{
 		"GenU32": {0, 1<<32 - 3, 1<<32 - 1, 1<<31 - 2, 1<<64 - 2, 1<<33 - 2},
@@ -625,6 +629,7 @@ func c02(args []string) int {
 	}
 	sh.Close()
 
+	c02reply(run)
 	c02alloc(run)
 	c02pooled(run)
 	c02server(run)
